@@ -11,7 +11,7 @@ from checks import c06
 
 cases, metas = [], []
 k = 0
-for cls in (0, 1, 2, 3, 4, 5, 6, 7):
+for cls in (0, 1, 2, 3, 4, 5, 6, 7, 8):
     for ch in c06.CHANNELS:
         for rate in c06.RATES:
             settings = [(0, q) for q in c06.ALLQ] + [(1, nom * max(1, ch // 2)) for nom in c06.NOMINALS]
